@@ -53,6 +53,7 @@ func buildIndexed(n Node, addr []int, reg *registry) any {
 		}
 		m["e"] = []any{}
 		m["nn"] = false // applied below, after the elements went in
+		m["er"] = false
 		s := BuildStack(m)
 		for i, k := range nKids(n, "e") {
 			s.Push(buildIndexed(k, append(append([]int{}, addr...), i+1), reg))
@@ -60,6 +61,9 @@ func buildIndexed(n Node, addr []int, reg *registry) any {
 		reg.stacks[s.Addr()] = addrStr(addr)
 		if nBool(n, "nn") {
 			s.SetNoNesting(true) // switched on AFTER the elements went in: it concerns future pushes only, never what is reachable
+		}
+		if nBool(n, "er") {
+			s.SetErr(errUser)
 		}
 		switch nStr(n, "form") {
 		case "alias":
@@ -166,8 +170,15 @@ func init() {
 						res = map[string]any{"ok": false, "addr": []int{}, "note": "PANIC: " + fmt.Sprint(r)}
 					}
 				}()
-				v, ok := root.Traverse(intsOf(p)...)
+				path := append(make([]int, 0, len(intsOf(p))+2), intsOf(p)...) // the caller's own slice, with spare capacity
+				given := append([]int{}, path...)
+				v, ok := root.Traverse(path...)
 				res = map[string]any{"ok": ok, "addr": []int{}, "note": ""}
+				if !reflect.DeepEqual(path, given) {
+					res["note"] = fmt.Sprintf("the caller's path slice was rewritten: %v -> %v", given, path)
+					out = append(out, res)
+					return
+				}
 				if ok {
 					a := reg.project(v)
 					if strings.HasPrefix(a, "<") {
@@ -207,7 +218,7 @@ func init() {
 func (g *treeGen) travStack(depth int) Node {
 	n := Node{"t": "stk", "k": []string{"AND", "OR", "NOT", "LIST", "BASIC"}[g.rng.Intn(5)], "form": "native", "paren": false, "fold": false,
 		"nspad": false, "lonce": false, "sym": []any{}, "delim": []any{}, "enc": []any{}, "neg": g.rng.Intn(2) == 0, "fwd": g.rng.Intn(2) == 0,
-		"mtx": false, "cap": 0, "nn": g.rng.Intn(3) == 0}
+		"mtx": false, "cap": 0, "nn": g.rng.Intn(3) == 0, "er": g.rng.Intn(4) == 0}
 	w := g.rng.Intn(5)
 	kids := []any{}
 	for i := 0; i < w; i++ {
@@ -251,6 +262,12 @@ func opID(op stackage.Operator) string {
 	}
 	if _, ok := op.(sliceOp); ok {
 		return "uslice"
+	}
+	if co, ok := op.(stackage.ComparisonOperator); ok && (co < stackage.Eq || co > stackage.Ge) {
+		if co == 0 {
+			return "op0"
+		}
+		return "op9" // a built-in operator value outside Eq..Ge
 	}
 	switch op.String() {
 	case "=":
@@ -858,6 +875,7 @@ func init() {
 		an, _ := in["a"].(map[string]any)
 		bn, _ := in["b"].(map[string]any)
 		a, b := BuildNode(an), BuildNode(bn) // two independent builds
+		shareBacking(a, b)
 		first := []string{eqVerdict(a, b), eqVerdict(b, a)}
 		// the verdict belongs to the two values, not to the history: asked again (both orders, twice) it is the same
 		for rep := 0; rep < 2; rep++ {
@@ -875,6 +893,31 @@ func init() {
 			g.mutate(b)
 		}
 		return Node{"t": "pair", "a": a, "b": b}, nil
+	}
+}
+
+// shareBacking: where the two trees hold, at the same top-level position, []int leaves of DIFFERENT length of which one is a
+// prefix of the other (the "one element more / fewer" mutation), the shorter one is replaced by a re-slice of the longer one's
+// backing array -- the way such a pair arises in practice (b := a[:n-1]).  Same start address, different values.
+func shareBacking(a, b any) {
+	sa, oka := stackage.ConvertStack(a)
+	sb, okb := stackage.ConvertStack(b)
+	if !oka || !okb {
+		return
+	}
+	for i := 0; i < sa.Len() && i < sb.Len(); i++ {
+		ea, _ := sa.Index(i)
+		eb, _ := sb.Index(i)
+		xa, ok1 := ea.([]int)
+		xb, ok2 := eb.([]int)
+		if !ok1 || !ok2 || len(xa) == len(xb) {
+			continue
+		}
+		if len(xa) > len(xb) && reflect.DeepEqual(xa[:len(xb)], xb) {
+			sb.Replace(xa[:len(xb)], i)
+		} else if len(xb) > len(xa) && reflect.DeepEqual(xb[:len(xa)], xa) && len(xa) > 0 {
+			sa.Replace(xb[:len(xa)], i)
+		}
 	}
 }
 
@@ -926,7 +969,7 @@ func (g *treeGen) eqLeaf() Node {
 		return Node{"t": "sl", "arr": false, "ety": "typed", "slack": 0, "e": []any{Node{"t": "sl", "arr": false, "ety": "typed", "slack": 0, "e": ints(2)},
 			Node{"t": "sl", "arr": false, "ety": "typed", "slack": []int{0, 5}[g.rng.Intn(2)], "e": ints(1 + g.rng.Intn(3))}}}
 	case 7:
-		return Node{"t": "mp", "ks": []any{[]any{"k"}, []any{"j"}}, "vs": []any{[]any{"1"}, []any{fmt.Sprint(2 + g.rng.Intn(7))}}}
+		return Node{"t": "mp", "vp": g.rng.Intn(2) == 0, "ks": []any{[]any{"k"}, []any{"j"}}, "vs": []any{[]any{"1"}, []any{fmt.Sprint(2 + g.rng.Intn(7))}}}
 	case 8:
 		if g.rng.Intn(2) == 0 {
 			vals := []any{Node{"t": "nil"}, Node{"t": "leaf", "ty": "str", "v": []any{"x"}}}
